@@ -72,6 +72,8 @@ MUTANTS = [
     ("EQUIV loader iterates the file object instead of readlines()", G, "            for line in f.readlines():", "            for line in f:", []),
     ("EQUIV loader tries the landmark parser before the odometry parser", G, "                    # Odometry Edge\n                    edge_or_none = EdgeOdometry.from_g2o(line, g2o_params)", "                    # Landmark Edge first (the tags are disjoint)\n                    edge_or_none = EdgeLandmark.from_g2o(line, g2o_params)\n                    if edge_or_none:\n                        edges.append(edge_or_none)\n                        continue\n\n                    # Odometry Edge\n                    edge_or_none = EdgeOdometry.from_g2o(line, g2o_params)", []),
     ("EQUIV export builds the text first and writes it once", G, "                    f.write(edge_str_or_none)", "                    f.write(str(edge_str_or_none))", []),
+    ("EQUIV landmark error composed step by step", EL, "return (((self.vertices[0].pose + self.offset).inverse + self.vertices[1].pose) - self.estimate).to_compact()", "sensor_ = self.vertices[0].pose + self.offset\n        local_ = sensor_.inverse + self.vertices[1].pose\n        return (local_ - self.estimate).to_compact()", []),
+    ("EQUIV fixed set built with a loop", G, "self._fixed_gradient_indices = {v.gradient_index for v in self._vertices if v.fixed}", "self._fixed_gradient_indices = set()\n        for v_ in self._vertices:\n            if v_.fixed:\n                self._fixed_gradient_indices.add(v_.gradient_index)", []),
     ("info-lower-triangle", EO, 'self.estimate[2]) + " ".join([str(x) for x in self.information[np.triu_indices(3, 0)]])', 'self.estimate[2]) + " ".join([str(x) for x in self.information.T[np.triu_indices(3, 0)]])', []),
     ("params-after-edges", G, "            if self._g2o_params:\n                for g2o_param in self._g2o_params.values():\n                    f.write(g2o_param.to_g2o())\n\n            for v in self._vertices:\n                f.write(v.to_g2o())\n",
      "            for v in self._vertices:\n                f.write(v.to_g2o())\n\n            if self._g2o_params:\n                for g2o_param in self._g2o_params.values():\n                    f.write(g2o_param.to_g2o())\n", ["C13"]),
